@@ -812,7 +812,10 @@ class SimSocket:
         if ep.peer.closed:
             if self.net.send_to_closed_raises:
                 raise BrokenPipeError(errno.EPIPE, "Broken pipe")
-            return len(data)  # first write after the peer closed succeeds silently
+            # first write after the peer closed succeeds: the bytes do cross
+            # the wire, the peer's stack just discards them
+            ep.conn.tap[ep.side].append(data)
+            return len(data)
         ep.conn.tap[ep.side].append(data)
         if data:
             ep.peer.rx.append(data)
